@@ -213,8 +213,8 @@ def check_key_provenance(ctx, facts):
                             "same name in different directories get each other's mapping (reads and writes of one instance land in the other's file)" % (lossy or other_calls)[0].split("::", 1)[-1])
             else:
                 ctx.ok("C13.2", sn, "mapping cache keyed by the whole file path", b.relfile, s.line, str(sorted(ko))[:120])
-    ctx.floor("C13.2", "accesses of the mapping cache", n_k, 3)
-    ctx.floor("C13.2", "accesses of process-global maps", n, 8)
+    ctx.floor("C13.2", "accesses of the mapping cache", n_k, 1)
+    ctx.floor("C13.2", "accesses of process-global maps", n, 3)
 
 
 def check_sinks(ctx, facts):
@@ -241,7 +241,7 @@ def check_sinks(ctx, facts):
                             "the path handed to %s originates from %s: not derived from the instance's root" % (cn, [o.what for o in (lits + envs)][:2]))
             else:
                 ctx.ok("C13.3", F, "%s on a path derived from the instance root / block file path" % cn.split("::")[-1], b.relfile, s.line, SINK_CALLERS[F][:100])
-    ctx.floor("C13.3", "filesystem sink call sites", n, 12)
+    ctx.floor("C13.3", "filesystem sink call sites", n, 4)
 
 
 def run(ctx):
